@@ -31,7 +31,7 @@ def run(ctx):
     # (the path-by-path variants K*ap always go to their own depth 3: every history, not one witness per transition)
     shallow = ctx.pick(2, 4)
     # 1. model checking + generation in one exploration (properties on every transition via CheckAC)
-    r = ctx.tlc_must_hold("SSHAuthServer_Gen", cfg_text=cc.cfg_text("TableGeneral", 128, depth, shallow=shallow, deep=deep, gen=True),
+    r = ctx.tlc_must_hold("SSHAuthServer_Gen", cfg_text=cc.cfg_text("ConfigsGeneral", 128, depth, shallow=shallow, deep=deep, gen=True),
                           workers=16, timeout=ctx.pick(300, 900), heap="8g",
                           note="exhaustive to %d requests (%s) / %d (others); witness history per transition" % (depth, ",".join(deep), shallow))
     cfgs, hists = cc.split_traces(r.traces)
@@ -41,14 +41,14 @@ def run(ctx):
     del hists
     if ctx.thorough:
         # 2. the full publickey product key x algorithm x format x signature kind (model level), after a priming request
-        ctx.tlc_must_hold("SSHAuthServer_MCwide", cfg_text=cc.cfg_text("TableGeneral", 128, 2, general=cc.CONFIGS, reqat="AtWide"), workers=16, timeout=900,
+        ctx.tlc_must_hold("SSHAuthServer_MCwide", cfg_text=cc.cfg_text("ConfigsGeneral", 128, 2, general=cc.CONFIGS, reqat="AtWide"), workers=16, timeout=900,
                           note="full publickey request product after a priming request")
         # 3. deeper exploration without printing
-        ctx.tlc_must_hold("SSHAuthServer_MC", cfg_text=cc.cfg_text("TableGeneral", 128, 6), workers=16, timeout=900,
+        ctx.tlc_must_hold("SSHAuthServer_MC", cfg_text=cc.cfg_text("ConfigsGeneral", 128, 6), workers=16, timeout=900,
                           note="exhaustive to 6 requests")
         # 4. random walks: the same loop states reached through other pasts
-        r = ctx.tlc_must_hold("SSHAuthServer_Gen", cfg_text=cc.cfg_text("TableGeneral", 128, 6, gen=True, simulate=True),
-                              workers=1, simulate=30000, depth=7, timeout=600, count=False, note="random walks, depth 6")
+        r = ctx.tlc_must_hold("SSHAuthServer_Gen", cfg_text=cc.cfg_text("ConfigsGeneral", 128, 6, gen=True, simulate=True),
+                              workers=1, simulate=3000, depth=7, timeout=600, count=False, note="random walks, depth 6")
         cfgs, hists = cc.split_traces(r.traces)
         cc.replay(ctx, "C32", cfgs, hists, "random walks")
     ctx.exhaustive = True
